@@ -273,6 +273,9 @@ def clause_f(ctx, P):
 
 
 def run(ctx, P):
+    from . import r2
+    r2.family_arms_consistent(ctx, P, "C18g")
+    r2.removed_iff_no_ptr_left(ctx, P, "C18h")
     clause_a(ctx, P)
     clause_b(ctx, P)
     clause_c(ctx, P)
